@@ -188,14 +188,20 @@ PROPS = {
     ),
     'C06': dict(
         v=[('u_mb2_builder', ['mb::Builder::*', 'EndTag::default', 'BootInformationHeader::new', 'TagHeader::new', 'TagType::from',
-                              'seqfold::lemma_*', 'MaybeDynSized::as_bytes', 'BytesRef::vbytes', 'lemma_mb2_layouts'])],
+                              'seqfold::lemma_*', 'MaybeDynSized::as_bytes', 'BytesRef::vbytes', 'lemma_mb2_layouts',
+                              # mechanised composition build -> load -> tags -> walk (lemma over the contracts)
+                              'mb::build_load_walk', 'lemma_walk_items', 'lemma_item_offs_len', 'walk_collect',
+                              'BootInformation::load', 'BootInformation::tags', 'TagIter::next', 'MaybeDynSized::as_ptr'])],
         k_quick=[], k_thorough=[],
     ),
     'C12': dict(
         v=[('u_hdr_builder', ['hb::Builder::build', 'hb::Builder::new', 'hb::Builder::*_tag', 'EndHeaderTag::new', 'Multiboot2BasicHeader::new',
                               'Multiboot2BasicHeader::set_size',
                               'HeaderTagHeader::new', 'Multiboot2BasicHeader::calc_checksum', 'lemma_spec_checksum', 'seqfold::lemma_*',
-                              'MaybeDynSized::as_bytes', 'BytesRef::vbytes', 'lemma_hdr_layouts'])],
+                              'MaybeDynSized::as_bytes', 'BytesRef::vbytes', 'lemma_hdr_layouts',
+                              # mechanised composition build -> load -> iter -> walk (lemma over the contracts)
+                              'hb::build_load_walk', 'lemma_walk_items', 'lemma_item_offs_len', 'walk_collect',
+                              'Multiboot2Header::load', 'Multiboot2Header::iter', 'Multiboot2Header::arch', 'TagIter::next', 'MaybeDynSized::as_ptr'])],
         k_quick=[], k_thorough=[],
     ),
     'C14': dict(
@@ -399,8 +405,8 @@ MANIFEST_TEXT = {
         note='Trusted: rustc places the DST tail at the declared fixed offset (checked by Kani harnesses except for ElfSectionsTag, Kani ICE).',
     ),
     'C06': dict(
-        text='Proof: Verus verifies the verbatim multiboot2::Builder: each of the 22 setters against a full-frame postcondition (named slot = supplied tag, every other field unchanged; repeatable kinds appended in call order; add_custom_tag rejects non-custom types), and build() against: 8-aligned result, declared total size = exact byte length, payload = concatenation of the byte images of exactly the supplied tags in the documented order (loop invariants for modules / SMBIOS / custom tags), followed by an end tag (type 0, size 8) as the final 8 bytes. A dropped, duplicated or reordered push fails a named step assertion. Kani cannot compile this type (ICE on ElfSectionsTag), so the only cross-check on compiled code is the bounded native stand-in n_builder_roundtrip.',
-        note='Assumes the contract of new_boxed (C16, checked by Kani for bounded inputs) and that references to tags held by the builder are well-formed (type-system guarantee, axiom_safe_ref_wf); VBEInfoTag is an opaque stub; the lemma that the built bytes satisfy the load acceptance condition is by inspection of the two contracts (C02 postcondition vs. this postcondition), not mechanised.',
+        text='Proof: Verus verifies the verbatim multiboot2::Builder: each of the 22 setters against a full-frame postcondition (named slot = supplied tag, every other field unchanged; repeatable kinds appended in call order; add_custom_tag rejects non-custom types), and build() against: 8-aligned result, declared total size = exact byte length, payload = concatenation of the byte images of exactly the supplied tags in the documented order (loop invariants for modules / SMBIOS / custom tags), followed by an end tag (type 0, size 8) as the final 8 bytes. A dropped, duplicated or reordered push fails a named step assertion. The composition is mechanised too: the glue function build_load_walk CALLS the verified build(), BootInformation::load(), tags() and (through walk_collect) TagIter::next, and Verus proves from their contracts alone that the built structure loads and that the real iterator visits exactly the supplied tag images, in the documented order, each byte-identical at its offset, then the end tag, ending exactly at the end of the structure (lemma_walk_items: the C03 spec walk over a concatenation of tag images = the prefix sums of their lengths). Kani cannot compile this type (ICE on ElfSectionsTag), so the only cross-check on compiled code is the bounded native stand-in n_builder_roundtrip.',
+        note='Assumes the contract of new_boxed (C16, checked by Kani for bounded inputs) and that references to tags held by the builder are well-formed (type-system guarantee, axiom_safe_ref_wf); VBEInfoTag is an opaque stub; the composition lemma takes as hypothesis that every supplied tag image is a tag (declared size >= 8, image length = size rounded up to 8: the postcondition of the constructors, C07, and of the typed views, C15).',
     ),
     'C07': dict(
         text='Proof on compiled code: for every fixed-size tag constructor of both crates a loop-free Kani harness with ALL arguments symbolic proves type == specified number == Tag::ID, size == specified unpadded size, bytes [0,size) == specified little-endian encoding, accessors read the arguments back, alignment 8 and as_bytes() usable in arrays. Variable-length constructors: bounded content lengths (every padding residue), labelled.',
@@ -419,8 +425,8 @@ MANIFEST_TEXT = {
         note='Trusted: pointer-extent prelude; decode::<Multiboot2BasicHeader> relates bytes to fields (little-endian decoding checked by Kani accessors harness).',
     ),
     'C12': dict(
-        text='Proof: Verus verifies the verbatim multiboot2_header::Builder: 10 setters with full-frame postconditions, new(), and build() against: 8-aligned, magic 0xE85250D6, chosen architecture, length = byte length, checksum congruence, payload = byte images of exactly the supplied tags in order, terminated by an end tag (type 0, flags 0, size 8) as the final 8 bytes - for all subsets, orders (frames), architectures and contents. Kani re-checks concrete subsets with symbolic field values on compiled code (bounded).',
-        note='Assumes the contract of new_boxed (C16) and axiom_safe_ref_wf (type-system guarantee).',
+        text='Proof: Verus verifies the verbatim multiboot2_header::Builder: 10 setters with full-frame postconditions, new(), and build() against: 8-aligned, magic 0xE85250D6, chosen architecture, length = byte length, checksum congruence, payload = byte images of exactly the supplied tags in order, terminated by an end tag (type 0, flags 0, size 8) as the final 8 bytes - for all subsets, orders (frames), architectures and contents. The composition is mechanised: build_load_walk CALLS the verified build(), Multiboot2Header::load(), arch(), iter() and (through walk_collect) TagIter::next, and Verus proves from their contracts alone that the built header loads (magic, length, checksum accepted), reports the chosen architecture, and that the real iterator visits exactly the supplied tag images in order, byte-identical, then the end tag. Kani re-checks concrete subsets with symbolic field values on compiled code (bounded).',
+        note='Assumes the contract of new_boxed (C16) and axiom_safe_ref_wf (type-system guarantee); the composition lemma takes as hypothesis that every supplied tag image is a tag (declared size >= 8, image length = size rounded up to 8: C07 / C15 postconditions).',
     ),
     'C15': dict(
         text='Proof: Verus verifies DynSizedStructure::cast ONCE, generically for every T satisfying the MaybeDynSized trait contract (layout_size = the size rustc gives a value with that metadata): on normal return same address, same provenance, size_of_val equal to the tag`s own size rounded up to 8, metadata = dst_len(header). The 11 in-repo dst_len implementations are verified against the trait contract.',
